@@ -13,44 +13,55 @@ import (
 	"verif/ev"
 )
 
-// c15TwoFills: several vaults of ONE product are seized by the same sweep, so their Dutch auctions start in the same
-// block and walk the same price path; one limit bid at the discount bucket they are about to enter is then matched
-// against all of them in one begin block. That block is explored: every automatic fill is its own unit inside the
-// limit-bid sweep, so a fault injected into one fill must leave the other fills of the block in place.
-func c15TwoFills(t *testing.T, rec *ev.Rec) {
-	if ev.ShardNo() >= ev.Pick(2, 6) {
-		return
-	}
-	variant := ev.ShardNo()
-	u := newCDP(t, cdpOpts{variant: variant})
-	c := u.c
-	defer c.Close()
-	rnd := rng("C15-two-fills", variant)
-	r := newCdpRunner(u, rnd, rec, cdpCfg{maxGap: time.Minute})
-	r.panicIsViolation = true
-	var p *uProduct
-	for _, q := range u.products {
-		if q.App == appBeacon && !q.P.IsStableMintVault && q.In.Denom == "uatom" {
-			p = q
+// twoFills: several vaults are seized by the same sweep, so their Dutch auctions start in the same block and walk the
+// same price path; limit bids at the discount bucket they are about to enter are then matched against all of them in
+// one begin block. With one collateral denom the auctions share one limit-bid book; with several (same debt asset) the
+// block fills auctions of different books at the same whole-percent discount. step runs one block of the given length
+// (the caller decides whether it is explored first). Reports whether a block with at least two automatic fills was seen.
+func (r *cdpRunner) twoFills(denoms []string, step func(dt time.Duration)) bool {
+	u, c, rec := r.u, r.u.c, r.rec
+	var prods []*uProduct
+	// per collateral denom the product with the highest minimum ratio (a seized vault's collateral must cover debt and
+	// penalty at a few percent discount, otherwise the fill needs the app reserve), all with one debt asset
+	for _, d := range denoms {
+		var best *uProduct
+		for _, q := range u.products {
+			if q.App == appBeacon && !q.P.IsStableMintVault && q.In.Denom == d && (len(prods) == 0 || q.Out.Denom == prods[0].Out.Denom) && (best == nil || q.P.MinCr.GT(best.P.MinCr)) {
+				best = q
+			}
+		}
+		if best != nil {
+			prods = append(prods, best)
 		}
 	}
-	if p == nil {
-		return
+	if len(prods) != len(denoms) {
+		return false
 	}
-	minCr := p.P.MinCr.MulInt64(1000).TruncateInt64()
-	for i := 0; i < 3; i++ {
-		a := c.Accts[i]
-		debt := p.P.DebtFloor.MulRaw(int64(40 * (i + 1)))
-		in := r.collateralFor(p, debt, minCr+8)
-		r.tx("vault_create", a, &vaulttypes.MsgCreateRequest{From: a.Addr.String(), AppId: p.App, ExtendedPairVaultId: p.ID, AmountIn: in, AmountOut: debt}, fmt.Sprintf("two-fills: prod=%d in=%s out=%s", p.ID, in, debt))
+	perProd := 3
+	if len(prods) > 1 {
+		perProd = 2
+	}
+	n := 0
+	for _, p := range prods {
+		minCr := p.P.MinCr.MulInt64(1000).TruncateInt64()
+		for i := 0; i < perProd; i++ {
+			a := c.Accts[n%4]
+			n++
+			debt := p.P.DebtFloor.MulRaw(int64(40 * (i + 1)))
+			in := r.collateralFor(p, debt, minCr+8)
+			r.tx("vault_create", a, &vaulttypes.MsgCreateRequest{From: a.Addr.String(), AppId: p.App, ExtendedPairVaultId: p.ID, AmountIn: in, AmountOut: debt}, fmt.Sprintf("two-fills: prod=%d in=%s out=%s", p.ID, in, debt))
+		}
 	}
 	r.block(6 * time.Second)
-	pin, _ := u.price(p.In)
-	r.env("price", "two-fills: collateral falls 20 %", func() { u.setPrice(p.In.Denom, pin*80/100, true) })
+	for _, p := range prods {
+		p := p
+		pin, _ := u.price(p.In)
+		r.env("price", "two-fills: "+p.In.Denom+" falls 20 %", func() { u.setPrice(p.In.Denom, pin*80/100, true) })
+	}
 	for i := 0; i < 3 && !r.panicked; i++ {
 		r.block(6 * time.Second)
 	}
-	live := func() []auctionsV2types.Auction {
+	live := func(p *uProduct) []auctionsV2types.Auction {
 		var out []auctionsV2types.Auction
 		for _, x := range r.last.AucV2 {
 			if x.AuctionType && x.AppId == p.App && x.CollateralAssetId == p.In.ID && x.DebtAssetId == p.Out.ID {
@@ -59,56 +70,107 @@ func c15TwoFills(t *testing.T, rec *ev.Rec) {
 		}
 		return out
 	}
-	as := live()
-	if len(as) < 2 || r.panicked {
+	enough := func() bool {
+		tot := 0
+		for _, p := range prods {
+			l := len(live(p))
+			if l == 0 {
+				return false
+			}
+			tot += l
+		}
+		return tot >= 2
+	}
+	if !enough() || r.panicked {
 		rec.Count("two_fills_scenarios_without_two_auctions", 1)
-		return
+		return false
 	}
 	// the posted price of a round may never fall below the oracle price (premium and discount of the app decide): the
 	// oracle price is moved to 3.5 % above the posted price instead, so that the auctions are about to enter the 4 %
 	// bucket; one block lets the auction records take the new oracle price over
-	x := as[0]
-	np := x.CollateralTokenAuctionPrice.MulInt64(1000).QuoInt64(965).TruncateInt().Uint64()
-	r.env("price", fmt.Sprintf("two-fills: oracle price to %d (posted %s)", np, x.CollateralTokenAuctionPrice), func() { u.setPrice(p.In.Denom, np, true) })
+	for _, p := range prods {
+		p := p
+		x := live(p)[0]
+		np := x.CollateralTokenAuctionPrice.MulInt64(1000).QuoInt64(965).TruncateInt().Uint64()
+		r.env("price", fmt.Sprintf("two-fills: oracle price of %s to %d (posted %s)", p.In.Denom, np, x.CollateralTokenAuctionPrice), func() { u.setPrice(p.In.Denom, np, true) })
+	}
 	r.block(6 * time.Second)
-	as = live()
-	if len(as) < 2 || r.panicked {
+	if !enough() || r.panicked {
 		rec.Count("two_fills_scenarios_without_two_auctions", 1)
-		return
-	}
-	x = as[0]
-	bucket := int64(1)
-	if x.CollateralTokenOraclePrice.GT(x.CollateralTokenAuctionPrice) {
-		bucket = x.CollateralTokenOraclePrice.Sub(x.CollateralTokenAuctionPrice).Quo(x.CollateralTokenOraclePrice).MulInt64(100).TruncateInt64() + 1
-	}
-	total := sdk.ZeroInt()
-	for _, y := range as {
-		total = total.Add(y.DebtToken.Amount)
+		return false
 	}
 	bidder := c.Accts[5]
-	r.topUpDebt(bidder, x.DebtToken.Denom, total.MulRaw(2))
-	amount := total.MulRaw(2)
-	if have := c.Bal(bidder.Addr, x.DebtToken.Denom); have.LT(amount) {
-		amount = have // what other users' mints could supply: still more than the smallest auction's debt
-	}
-	res := r.tx("limit_deposit", bidder, &auctionsV2types.MsgDepositLimitBidRequest{CollateralTokenId: x.CollateralAssetId, DebtTokenId: x.DebtAssetId, PremiumDiscount: sdk.NewInt(bucket), Bidder: bidder.Addr.String(), Amount: sdk.NewCoin(x.DebtToken.Denom, amount)},
-		fmt.Sprintf("two-fills: bucket=%d amt=%s for %d auctions", bucket, amount, len(as)))
-	if len(r.last.LimitBids) == 0 {
-		rec.Count("two_fills_scenarios_limit_deposit_refused", 1)
-		rec.Note(fmt.Sprintf("two-fills: limit deposit refused: %s (bidder holds %s)", trunc(res.Log), c.Bal(bidder.Addr, x.DebtToken.Denom)))
-		return
+	for _, p := range prods {
+		as := live(p)
+		x := as[0]
+		bucket := int64(1)
+		if x.CollateralTokenOraclePrice.GT(x.CollateralTokenAuctionPrice) {
+			bucket = x.CollateralTokenOraclePrice.Sub(x.CollateralTokenAuctionPrice).Quo(x.CollateralTokenOraclePrice).MulInt64(100).TruncateInt64() + 1
+		}
+		total := sdk.ZeroInt()
+		for _, y := range as {
+			total = total.Add(y.DebtToken.Amount)
+		}
+		r.topUpDebt(bidder, x.DebtToken.Denom, total.MulRaw(2))
+		amount := total.MulRaw(2)
+		if have := c.Bal(bidder.Addr, x.DebtToken.Denom); have.LT(amount) {
+			amount = have // what other users' mints could supply: still more than the smallest auction's debt
+		}
+		if !amount.IsPositive() {
+			continue
+		}
+		res := r.tx("limit_deposit", bidder, &auctionsV2types.MsgDepositLimitBidRequest{CollateralTokenId: x.CollateralAssetId, DebtTokenId: x.DebtAssetId, PremiumDiscount: sdk.NewInt(bucket), Bidder: bidder.Addr.String(), Amount: sdk.NewCoin(x.DebtToken.Denom, amount)},
+			fmt.Sprintf("two-fills: %s bucket=%d amt=%s for %d auctions", p.In.Denom, bucket, amount, len(as)))
+		if !res.OK() {
+			rec.Count("two_fills_scenarios_limit_deposit_refused", 1)
+			rec.Note(fmt.Sprintf("two-fills: limit deposit refused: %s (bidder holds %s)", trunc(res.Log), c.Bal(bidder.Addr, x.DebtToken.Denom)))
+			return false
+		}
 	}
 	rec.Count("two_fills_scenarios_set_up", 1)
 	for i := 0; i < 8 && !r.panicked; i++ {
 		before := len(r.last.BidsV2)
-		exploreAtBoundary(c, rec, 25*time.Second, "cdp-two-fills", ev.Pick(2500, 20000))
+		step(25 * time.Second)
 		r.last = u.snap()
-		if d := len(r.last.BidsV2) - before; d >= 2 {
-			rec.Count("explored_blocks_with_two_or_more_automatic_fills", 1)
-			break
-		} else if d == 1 {
-			rec.Count("explored_blocks_with_one_automatic_fill", 1)
+		if dbgTwoFills {
+			for _, p := range prods {
+				for _, y := range live(p) {
+					rec.Note(fmt.Sprintf("two-fills debug i=%d auction %d posted %s oracle %s debt %s limitbids %d", i, y.AuctionId, y.CollateralTokenAuctionPrice, y.CollateralTokenOraclePrice, y.DebtToken, len(r.last.LimitBids)))
+				}
+			}
+			for _, lb := range r.last.LimitBids {
+				rec.Note(fmt.Sprintf("two-fills debug i=%d limit bid coll=%d debt=%d prem=%s amt=%s", i, lb.CollateralTokenId, lb.DebtTokenId, lb.PremiumDiscount, lb.DebtToken))
+			}
 		}
+		if d := len(r.last.BidsV2) - before; d >= 2 {
+			rec.Count(fmt.Sprintf("blocks_with_two_or_more_automatic_fills/%d-collateral-denoms", len(denoms)), 1)
+			return true
+		} else if d == 1 {
+			rec.Count("blocks_with_one_automatic_fill", 1)
+		}
+	}
+	return false
+}
+
+var dbgTwoFills = false
+
+// c15TwoFills: the block with the fills is explored: every automatic fill is its own unit inside the limit-bid sweep, so
+// a fault injected into one fill must leave the other fills of the block in place.
+func c15TwoFills(t *testing.T, rec *ev.Rec) {
+	if ev.ShardNo() >= ev.Pick(2, 6) {
+		return
+	}
+	variant := ev.ShardNo()
+	u := newCDP(t, cdpOpts{variant: variant})
+	defer u.c.Close()
+	r := newCdpRunner(u, rng("C15-two-fills", variant), rec, cdpCfg{maxGap: time.Minute})
+	r.panicIsViolation = true
+	denoms := []string{"uatom"}
+	if variant%2 == 1 {
+		denoms = []string{"uatom", "ucmdx"}
+	}
+	if r.twoFills(denoms, func(dt time.Duration) { exploreAtBoundary(u.c, rec, dt, "cdp-two-fills", ev.Pick(2500, 20000)) }) {
+		rec.Count("explored_blocks_with_two_or_more_automatic_fills", 1)
 	}
 }
 
